@@ -62,6 +62,10 @@ func opAlphabet(prop string, v *world.View) []wOp {
 			}
 		}
 	}
+	// several bound instances on one node: each owns different cores, so giving back the wrong
+	// instance's resources is visible per core
+	ops = append(ops, wOp{Kind: "create", Strategy: "AUTO", Count: 2, Req: "bind1", Include: []string{"n2"}},
+		wOp{Kind: "create", Strategy: "AUTO", Count: 3, Req: "bind1", Include: []string{"n2"}})
 	ws := sortedWorkloads(v)
 	// one representative per distinct (node, resources) class: indices whose predecessor differs
 	last := ""
